@@ -157,4 +157,8 @@ StaleCleared == (pc = "idle" /\ ~stale) =>
 
 \* ---- behaviours for the replay on the real server -------------------------------------------------
 Replay == (pc = "idle" /\ n = MaxEvents) => PrintT(<<"REPLAY", ToJson([hist |-> hist, published |-> published])>>)
+
+\* unbounded configuration (mc/Lsp_unbounded.cfg): one shortest history per reachable quiescent state of the
+\* complete state graph (the VIEW hides n and hist, so each distinct state is visited - and printed - once)
+ReplayQuiescent == (pc = "idle" /\ ~stale /\ n > 0) => PrintT(<<"REPLAY", ToJson([hist |-> hist, published |-> published])>>)
 =============================================================================
